@@ -618,4 +618,181 @@ theorem process_clean_no_errors (reg : Registry) (opts : Opts) (plug : Plug)
   rw [h5]
   exact devStage_noErrors _ _ _ _ ((forestErrs_eq_nil _).1 h3)
 
+/-! ### `toEntry`, one level unfolded with its local functions named -/
+
+abbrev Rec := Mod → List Stmt → Stmt → List NodeId → TState → Entry × TState
+
+section Body
+variable (env : Env) (fuel : Nat) (rec : Rec) (root : Mod) (n : Stmt) (sub : List Stmt) (visiting : List NodeId) (isMod : Bool)
+
+def addAllFn (kw : String) (acc : Entry × TState) : Entry × TState :=
+  (n.all kw).foldl (fun (acc : Entry × TState) c =>
+    let (ce, st) := rec root sub c visiting acc.2
+    (acc.1.add c.arg ce, st)) acc
+
+/-- The local `step` of `toEntry`. -/
+def stepFn (acc : Entry × TState) (f : String) : Entry × TState :=
+  let (e, st) := acc
+  match f with
+  | "config" =>
+    let (t, er) := tristate n (n.one? "config")
+    ((e.withD fun d => { d with config := t }).addErrs er, st)
+  | "mandatory" =>
+    let (t, er) := tristate n (n.one? "mandatory")
+    ((e.withD fun d => { d with mandatory := t }).addErrs er, st)
+  | "description" =>
+    (match n.argOf? "description" with
+      | some v => e.withD fun d => { d with description := v }
+      | none => e, st)
+  | "key" =>
+    (match n.argOf? "key" with
+      | some v => e.withD fun d => { d with key := v }
+      | none => e, st)
+  | "action" | "anydata" | "anyxml" | "case" | "choice" | "container" | "leaf" | "leaf-list" | "list"
+  | "notification" => addAllFn rec root n sub visiting f acc
+  | "rpc" =>
+    (n.all "rpc").foldl (fun (acc : Entry × TState) c =>
+      let (ce, st) := rec root sub c visiting acc.2
+      (acc.1.add c.arg (ce.withD fun d => { d with isRpc := true }), st)) acc
+  | "grouping" =>
+    (n.all "grouping").foldl (fun (acc : Entry × TState) g =>
+      let (ge, st) := rec root sub g visiting acc.2
+      (acc.1.importErrors ge, st)) acc
+  | "uses" =>
+    (n.all "uses").foldl (fun (acc : Entry × TState) u =>
+      let (ge, st) := rec root sub u visiting acc.2
+      (acc.1.merge none ge, st)) acc
+  | "input" =>
+    match n.one? "input" with
+    | none => acc
+    | some i =>
+      let (ie, st) := rec root sub i visiting st
+      let ie := ie.withD fun d => { d with name := "input", kind := .input }
+      (match e with | .mk d c _ o => .mk { d with isRpc := true } c [ie] o, st)
+  | "output" =>
+    match n.one? "output" with
+    | none => acc
+    | some o =>
+      let (oe, st) := rec root sub o visiting st
+      let oe := oe.withD fun d => { d with name := "output", kind := .output }
+      (match e with | .mk d c i _ => .mk { d with isRpc := true } c i [oe], st)
+  | "include" =>
+    (n.all "include").foldl (fun (acc : Entry × TState) a =>
+      let (e, st) := acc
+      match env.includeTarget root a with
+      | none => (e.addErr (Err.at_ a "other"), st)
+      | some im =>
+        let srcToIncluded := im.name ++ ":" ++ n.arg
+        let includedToSrc := n.arg ++ ":" ++ im.name
+        if st.merged.contains srcToIncluded then (e, st)
+        else if !st.merged.contains includedToSrc && im.name != n.arg then
+          let includedToParent := im.name ++ ":" ++ (im.belongsTo?.getD "")
+          if st.merged.contains includedToParent then (e, st)
+          else
+            let st := { st with merged := st.merged ++ [srcToIncluded, includedToParent] }
+            let (ie, st) := rec im [] im.stmt visiting st
+            (e.merge none ie, st)
+        else if env.opts.ignoreCircular then (e, st)
+        else (e.addErr (Err.bare "cycle"), st)) acc
+  | "deviation" =>
+    (n.all "deviation").foldl (fun (acc : Entry × TState) dv =>
+      let (de, st) := rec root sub dv visiting acc.2
+      (acc.1.importErrors de, st)) acc
+  | "deviate" =>
+    (n.all "deviate").foldl (fun (acc : Entry × TState) dv =>
+      let (de, st) := rec root sub dv visiting acc.2
+      let e := acc.1.importErrors de
+      (if deviateKinds.contains dv.arg then e else e.addErr (Err.at_ n "deviate-unknown-kind"), st)) acc
+  | "type" =>
+    match n.one? "type" with
+    | none => acc
+    | some t =>
+      let (ty, terrs) := env.tres.resolve env.reg root sub t
+      if terrs.isEmpty then (e.withD fun d => { d with type := ty }, st)
+      else (e.addErr (Err.bare "deviate-bad-type"), st)
+  | "default" =>
+    if e.d.kind == .deviate then
+      (match n.one? "default" with
+        | some dflt => e.withD fun d => { d with default := [dflt.arg] }
+        | none => e, st)
+    else acc
+  | "units" =>
+    (match n.argOf? "units" with
+      | some v => e.withD fun d => { d with units := v }
+      | none => e, st)
+  | "max-elements" =>
+    if e.d.kind != .deviate then acc else
+    let e := e.withD fun d => { d with listAttr := some (d.listAttr.getD {}) }
+    (match n.one? "max-elements" with
+      | none => e
+      | some v =>
+        let (mx, er) := semMax (some v)
+        (e.withD fun d => { d with hasMax := true, listAttr := some { (d.listAttr.getD {}) with max := mx } }).addErrs er, st)
+  | "min-elements" =>
+    if e.d.kind != .deviate then acc else
+    let e := e.withD fun d => { d with listAttr := some (d.listAttr.getD {}) }
+    (match n.one? "min-elements" with
+      | none => e
+      | some v =>
+        let (mn, er) := semMin (some v)
+        (e.withD fun d => { d with hasMin := true, listAttr := some { (d.listAttr.getD {}) with min := mn } }).addErrs er, st)
+  | "augment" =>
+    if !isMod then acc else
+    let (as, st) := (n.all "augment").foldl (fun (acc : List Entry × TState) a =>
+      let (ae, st) := rec root sub a visiting acc.2
+      (acc.1 ++ [ae], st)) ([], st)
+    (e, { st with augs := st.augs ++ [(root.seq, as)] })
+  | _ => acc
+
+/-- The data of the entry a directory-like statement starts from. -/
+def baseData : EData × List Err :=
+  let base : EData := { name := n.arg, kind := kindOfKw n.kw, hasDir := true, node := n, nodeMod := root.seq,
+                        nodeKw := n.kw }
+  if n.kw == "list" then
+    let (la, lerrs) := listAttrOf n
+    ({ base with listAttr := some la }, lerrs)
+  else if n.kw == "choice" then
+    ({ base with default := match n.one? "default" with | some d => [d.arg] | none => [] }, [])
+  else (base, [])
+
+def e0 : Entry := .mk { (baseData root n).1 with errors := (baseData root n).2 } [] [] []
+end Body
+
+/-- One level of `toEntry`, with the recursive calls abstracted as `rec`. -/
+def toEntryBody (env : Env) (fuel : Nat) (rec : Rec) (root : Mod) (scope : List Stmt) (n : Stmt)
+    (visiting : List NodeId) (st : TState) : Entry × TState :=
+  let isMod := n.kw == "module" || n.kw == "submodule"
+  match (if isMod then st.cache.find? (·.1 == root.seq) else none) with
+  | some (_, e) => (e, st)
+  | none =>
+  match (if n.kw == "grouping" then st.gcache.find? (·.1 == nodeId root n) else none) with
+  | some (_, e) => (e, st)
+  | none =>
+  let track := isMod || n.kw == "grouping"
+  if track && visiting.contains (nodeId root n) then (errorEntry root n "cycle", st) else
+  let visiting := if track then nodeId root n :: visiting else visiting
+  if n.kw == "leaf" then (leafEntry env root scope n false, st)
+  else if n.kw == "leaf-list" then
+    let e := leafEntry env root scope n true
+    let (la, lerrs) := listAttrOf n
+    (e.withD fun d => { d with listAttr := some la, errors := d.errors ++ lerrs,
+                               default := (n.all "default").map (·.arg) }, st)
+  else if n.kw == "uses" then
+    match (findGrouping env.reg (2 * fuel + 16) root scope n.arg []).1 with
+    | none => (errorEntry root n "unknown-group", st)
+    | some (g, groot, gscope) => rec groot gscope g visiting st
+  else
+  let (e, st) := (fieldOrder n.kw).foldl (stepFn env rec root n (n :: scope) visiting isMod) (e0 root n, st)
+  if isMod then (e, { st with cache := st.cache ++ [(root.seq, e)] })
+  else if n.kw == "grouping" then (e, { st with gcache := st.gcache ++ [(nodeId root n, e)] })
+  else (e, st)
+
+theorem toEntry_zero (env : Env) (root : Mod) (scope : List Stmt) (n : Stmt) (visiting : List NodeId) (st : TState) :
+    toEntry env 0 root scope n visiting st = (errorEntry root n "out-of-fuel", st) := rfl
+
+theorem toEntry_succ (env : Env) (fuel : Nat) (root : Mod) (scope : List Stmt) (n : Stmt) (visiting : List NodeId) (st : TState) :
+    toEntry env (fuel + 1) root scope n visiting st =
+      toEntryBody env fuel (toEntry env fuel) root scope n visiting st := by
+  rfl
+
 end Goyang.Lemmas.Tree
